@@ -37,15 +37,16 @@ var importSwap = map[string]string{
 	"math/rand/v2": rtPath + "/simrand2",
 	"hash/maphash": rtPath + "/simmaphash",
 	"crypto/rand":  rtPath + "/simcrand",
+	"context":      rtPath + "/simcontext",
 }
 
-var defaultName = map[string]string{"sync": "sync", "sync/atomic": "atomic", "math/rand": "rand", "math/rand/v2": "rand", "hash/maphash": "maphash", "crypto/rand": "rand"}
+var defaultName = map[string]string{"sync": "sync", "sync/atomic": "atomic", "math/rand": "rand", "math/rand/v2": "rand", "hash/maphash": "maphash", "crypto/rand": "rand", "context": "context"}
 
 var timeRedirect = map[string]bool{"Now": true, "Since": true, "Until": true, "Sleep": true, "After": true, "AfterFunc": true, "NewTimer": true, "NewTicker": true, "Tick": true, "Timer": true, "Ticker": true}
 var timeRefuse = map[string]bool{}
 
 // imports that cannot run under the simulator (real blocking / unmanaged goroutines / I/O)
-var refuseImport = map[string]bool{"C": true, "net": true, "net/http": true, "os/exec": true, "os/signal": true, "syscall": true, "context": true}
+var refuseImport = map[string]bool{"C": true, "net": true, "net/http": true, "os/exec": true, "os/signal": true, "syscall": true}
 
 // Knob is a capacity-like integer constant (cache size, ring length, entry
 // limit): a tuning knob the simulator may shrink in a variant build so that
